@@ -203,6 +203,9 @@ func runWakeWith(c wakeCase, choose3 func(cands []int, last int, step int) int, 
 		_ = s.Finish(1000)
 		return "VERIF-INFRA " + rerr.Error() + " in " + c.String()
 	}
+	if s.Misuse != "" {
+		return "VERIF-INFRA vsched: " + s.Misuse
+	}
 	if s.Panic != "" {
 		return "VERIF-KEY:wake-panic " + s.Panic
 	}
@@ -301,14 +304,14 @@ func drawWakeCase(t *rapid.T) wakeCase {
 		c.producers = append(c.producers, tr)
 	}
 	c.sleeper = -1
-	switch rapid.IntRange(0, 19).Draw(t, "preload") {
-	case 0:
+	switch rapid.IntRange(0, 39).Draw(t, "preload") {
+	case 0, 6:
 		c.preUrgent, c.preLow = 1024, rapid.IntRange(250, 300).Draw(t, "preLow")
-	case 3:
+	case 1, 7:
 		c.preUrgent, c.preLow = rapid.IntRange(1020, 1030).Draw(t, "preUrgent"), rapid.IntRange(0, 3).Draw(t, "preLow")
-	case 1:
+	case 2, 3:
 		c.preUrgent = rapid.IntRange(1, 40).Draw(t, "preUrgent")
-	case 2:
+	case 4, 5:
 		c.preLow = rapid.IntRange(1, 40).Draw(t, "preLow")
 	}
 	if rapid.Bool().Draw(t, "pct") {
@@ -321,7 +324,7 @@ func drawWakeCase(t *rapid.T) wakeCase {
 		}
 	} else {
 		c.sched = "walk"
-		if rapid.IntRange(0, 3).Draw(t, "sleeper") == 0 || (c.preUrgent >= 1000 && rapid.Bool().Draw(t, "sleeperAtThreshold")) {
+		if rapid.IntRange(0, 3).Draw(t, "sleeper") == 0 || c.preUrgent >= 1000 {
 			c.sleeper = rapid.IntRange(0, np-1).Draw(t, "sleeperProducer")
 			c.sleepAfter = rapid.IntRange(1, 14).Draw(t, "sleepAfter")
 			c.sleepFor = 60000
@@ -347,20 +350,30 @@ func TestC03WakeScheduled(t *testing.T) {
 func TestC03WakeExhaustive(t *testing.T) {
 	st := vstat.New("C03.poller_exhaustive")
 	defer st.Flush()
-	bound := 2
+	// pre-emption bound per number of threads (loop + producers): the space grows like (90*(threads-1))^bound / bound!
+	boundFor := map[int]int{2: 3, 3: 3}
+	if vstat.Thorough() {
+		boundFor = map[int]int{2: 5, 3: 4}
+	}
 	configs := []wakeCase{
 		{producers: [][]trig{{{true}, {false}}}},
 		{producers: [][]trig{{{false}}, {{true}}}},
 		{producers: [][]trig{{{true}, {true}, {false}}}},
+		{producers: [][]trig{{{false}, {true}}}},
 	}
 	if vstat.Thorough() {
-		configs = append(configs, wakeCase{producers: [][]trig{{{true}, {false}}, {{false}}}})
+		configs = append(configs,
+			wakeCase{producers: [][]trig{{{true}, {false}}, {{false}}}},
+			wakeCase{producers: [][]trig{{{false}}, {{false}}}},
+			wakeCase{producers: [][]trig{{{true}}, {{true}, {false}}}},
+			wakeCase{producers: [][]trig{{{false}, {false}, {true}, {false}}}})
 	}
 	k, n := vstat.Shard()
 	total := 0
 	idx := 0
 	for _, cfg := range configs {
 		nthreads := len(cfg.producers) + 1
+		bound := boundFor[nthreads]
 		var rec func(pre [][2]int, from int)
 		runOne := func(pre [][2]int) (int, string) {
 			at := map[int]int{}
@@ -404,7 +417,7 @@ func TestC03WakeExhaustive(t *testing.T) {
 		}
 		rec(nil, 1)
 	}
-	st.Set("preemption_bound", bound)
+	st.Set("preemption_bound_by_threads", fmt.Sprint(boundFor))
 	st.Set("schedules", total)
 }
 
